@@ -351,4 +351,210 @@ theorem tri_model_eq (a b c : V3 K) (ray : Ray3 K) :
     · simp [hneg]
 
 
+/-! ## Aabb helpers -/
+
+/-- one coordinate of the ray inside one slab of the box -/
+def SlabMem (mn mx o d s : K) : Prop := mn ≤ o + d * s ∧ o + d * s ≤ mx
+
+/-- the box as a set -/
+def AabbMem (b : Aabb K) (p : V3 K) : Prop :=
+  (b.mins.x ≤ p.x ∧ p.x ≤ b.maxs.x) ∧ (b.mins.y ≤ p.y ∧ p.y ≤ b.maxs.y) ∧ (b.mins.z ≤ p.z ∧ p.z ≤ b.maxs.z)
+/-- `p` lies on (the plane of) one of the six faces; the boundary of the box is `AabbMem ∧ OnFace` -/
+def OnFace (b : Aabb K) (p : V3 K) : Prop :=
+  (p.x = b.mins.x ∨ p.x = b.maxs.x) ∨ (p.y = b.mins.y ∨ p.y = b.maxs.y) ∨ (p.z = b.mins.z ∨ p.z = b.maxs.z)
+/-- `mins ≤ maxs` componentwise -/
+def AabbValid (b : Aabb K) : Prop := b.mins.x ≤ b.maxs.x ∧ b.mins.y ≤ b.maxs.y ∧ b.mins.z ≤ b.maxs.z
+
+theorem aabbMem_rayPt (b : Aabb K) (ray : Ray3 K) (s : K) :
+    AabbMem b (rayPt sq ray s) ↔ SlabMem b.mins.x b.maxs.x ray.o.x ray.d.x s ∧ SlabMem b.mins.y b.maxs.y ray.o.y ray.d.y s ∧
+      SlabMem b.mins.z b.maxs.z ray.o.z ray.d.z s := Iff.rfl
+
+/-- for `d ≠ 0` the slab condition is the parameter interval `[near, far]` computed by the code -/
+theorem slab_iff (mn mx o d s : K) (hbox : mn ≤ mx) (hd : d ≠ 0) :
+    SlabMem mn mx o d s ↔
+      (if (mx - o) * (1 / d) < (mn - o) * (1 / d) then (mx - o) * (1 / d) else (mn - o) * (1 / d)) ≤ s ∧
+      s ≤ (if (mx - o) * (1 / d) < (mn - o) * (1 / d) then (mn - o) * (1 / d) else (mx - o) * (1 / d)) := by
+  unfold SlabMem
+  have e1 : (mn - o) * (1 / d) = (mn - o) / d := by ring
+  have e2 : (mx - o) * (1 / d) = (mx - o) / d := by ring
+  rw [e1, e2]
+  rcases lt_or_gt_of_ne hd with hneg | hpos
+  · -- d < 0 : near = (mx-o)/d, far = (mn-o)/d (or equal)
+    have hle : (mx - o) / d ≤ (mn - o) / d := by
+      rw [div_le_div_right_of_neg hneg]; linarith
+    split_ifs with h
+    · rw [div_le_iff_of_neg hneg, le_div_iff_of_neg hneg]
+      constructor
+      · rintro ⟨a, b⟩; constructor <;> nlinarith
+      · rintro ⟨a, b⟩; constructor <;> nlinarith
+    · have heq : (mx - o) / d = (mn - o) / d := le_antisymm hle (not_lt.1 h)
+      rw [← heq, div_le_iff_of_neg hneg, le_div_iff_of_neg hneg]
+      have : mx - o = mn - o := by
+        have := congrArg (· * d) heq
+        simp only [div_mul_cancel₀ _ hd] at this; exact this
+      constructor
+      · rintro ⟨a, b⟩; constructor <;> nlinarith
+      · rintro ⟨a, b⟩; constructor <;> nlinarith
+  · have hle : (mn - o) / d ≤ (mx - o) / d := by
+      rw [div_le_div_iff_of_pos_right hpos]; linarith
+    rw [if_neg (not_lt.2 hle), if_neg (not_lt.2 hle), div_le_iff₀ hpos, le_div_iff₀ hpos]
+    constructor
+    · rintro ⟨a, b⟩; constructor <;> nlinarith
+    · rintro ⟨a, b⟩; constructor <;> nlinarith
+
+theorem slab_face (mn mx o d : K) (hd : d ≠ 0) :
+    let n0 := (mn - o) * (1 / d); let f0 := (mx - o) * (1 / d)
+    (o + d * (if f0 < n0 then f0 else n0) = mn ∨ o + d * (if f0 < n0 then f0 else n0) = mx) ∧
+    (o + d * (if f0 < n0 then n0 else f0) = mn ∨ o + d * (if f0 < n0 then n0 else f0) = mx) := by
+  intro n0 f0
+  have e1 : o + d * n0 = mn := by simp only [n0]; field_simp; ring
+  have e2 : o + d * f0 = mx := by simp only [f0]; field_simp; ring
+  split_ifs <;> simp [e1, e2]
+
+/-- loop invariant of `Aabb::cast_local_ray` after some axes have been processed (`P` = their slab conditions) -/
+structure SlabInv (big : K) (P face : K → Prop) (st : K × K) : Prop where
+  iff : ∀ s, 0 ≤ s → s ≤ big → (P s ↔ st.1 ≤ s ∧ s ≤ st.2)
+  lo : 0 ≤ st.1
+  le : st.1 ≤ st.2
+  hi : st.2 ≤ big
+  fmin : st.1 = 0 ∨ face st.1
+  fmax : st.2 = big ∨ face st.2
+
+theorem slabStep_some (big mn mx o d : K) (hbox : mn ≤ mx) (P face : K → Prop) (st st' : K × K)
+    (hface : ∀ s, (o + d * s = mn ∨ o + d * s = mx) → face s)
+    (hinv : SlabInv big P face st) :
+    letI := fieldNum K sq
+    slabStep mn mx o d st = some st' → SlabInv big (fun s => P s ∧ SlabMem mn mx o d s) face st' := by
+  simp only [slabStep]
+  by_cases hd : d = 0
+  · have : @neq K (fieldNum K sq) d 0 = true := (neq_zero_iff sq d).2 hd
+    rw [if_pos this]
+    split_ifs with h
+    · intro h'; cases h'
+    · intro h'; cases h'
+      push Not at h
+      refine ⟨fun s hs hsb => ?_, hinv.lo, hinv.le, hinv.hi, hinv.fmin, hinv.fmax⟩
+      rw [← hinv.iff s hs hsb]
+      unfold SlabMem; rw [hd]; simp only [zero_mul, add_zero]
+      exact ⟨fun h' => h'.1, fun h' => ⟨h', h.1, h.2⟩⟩
+  · have : ¬ (@neq K (fieldNum K sq) d 0 = true) := fun h => hd ((neq_zero_iff sq d).1 h)
+    rw [if_neg this]
+    simp only [fieldNum_nmax, fieldNum_nmin]
+    have hs := slab_iff mn mx o d
+    have hf := slab_face mn mx o d hd
+    simp only at hf
+    generalize (if (mx - o) * (1 / d) < (mn - o) * (1 / d) then (mx - o) * (1 / d) else (mn - o) * (1 / d)) = near at *
+    generalize (if (mx - o) * (1 / d) < (mn - o) * (1 / d) then (mn - o) * (1 / d) else (mx - o) * (1 / d)) = far at *
+    split_ifs with h
+    · intro h'; cases h'
+    · intro h'; cases h'
+      push Not at h
+      refine ⟨fun s hs0 hsb => ?_, le_trans hinv.lo (le_max_left _ _), h, le_trans (min_le_left _ _) hinv.hi, ?_, ?_⟩
+      · rw [hinv.iff s hs0 hsb, hs s hbox hd]
+        simp only [max_le_iff, le_min_iff]; tauto
+      · rcases max_choice st.1 near with e | e
+        · rw [e]; exact hinv.fmin
+        · rw [e]; exact Or.inr (hface _ hf.1)
+      · rcases min_choice st.2 far with e | e
+        · rw [e]; exact hinv.fmax
+        · rw [e]; exact Or.inr (hface _ hf.2)
+
+theorem slabStep_none (big mn mx o d : K) (hbox : mn ≤ mx) (P face : K → Prop) (st : K × K)
+    (hinv : SlabInv big P face st) :
+    letI := fieldNum K sq
+    slabStep mn mx o d st = none → ∀ s, 0 ≤ s → s ≤ big → ¬ (P s ∧ SlabMem mn mx o d s) := by
+  simp only [slabStep]
+  by_cases hd : d = 0
+  · have : @neq K (fieldNum K sq) d 0 = true := (neq_zero_iff sq d).2 hd
+    rw [if_pos this]
+    split_ifs with h
+    · intro _ s _ _ ⟨_, h1, h2⟩
+      rw [hd] at h1 h2; simp only [zero_mul, add_zero] at h1 h2
+      rcases h with h | h <;> linarith
+    · intro h'; cases h'
+  · have : ¬ (@neq K (fieldNum K sq) d 0 = true) := fun h => hd ((neq_zero_iff sq d).1 h)
+    rw [if_neg this]
+    simp only [fieldNum_nmax, fieldNum_nmin]
+    have hs := slab_iff mn mx o d
+    generalize (if (mx - o) * (1 / d) < (mn - o) * (1 / d) then (mx - o) * (1 / d) else (mn - o) * (1 / d)) = near at *
+    generalize (if (mx - o) * (1 / d) < (mn - o) * (1 / d) then (mn - o) * (1 / d) else (mx - o) * (1 / d)) = far at *
+    split_ifs with h
+    · intro _ s hs0 hsb ⟨hp, hsl⟩
+      rw [hinv.iff s hs0 hsb] at hp
+      rw [hs s hbox hd] at hsl
+      have h1 : max st.1 near ≤ s := max_le hp.1 hsl.1
+      have h2 : s ≤ min st.2 far := le_min hp.2 hsl.2
+      linarith
+    · intro h'; cases h'
+
+theorem SlabInv.congr {big : K} {P Q face : K → Prop} {st : K × K} (h : SlabInv big P face st) (hpq : ∀ s, P s ↔ Q s) :
+    SlabInv big Q face st :=
+  ⟨fun s a b => (hpq s).symm.trans (h.iff s a b), h.lo, h.le, h.hi, h.fmin, h.fmax⟩
+
+/-- the three slab iterations of `Aabb::cast_local_ray`: either some axis exits with `None` and no parameter of `[0,big]`
+is in the box, or the final `(tmin, tmax)` satisfies the invariant for the whole box -/
+theorem aabb_fold (big : K) (b : Aabb K) (ray : Ray3 K) (hv : AabbValid b) (hbig : 0 ≤ big) :
+    letI := fieldNum K sq
+    (∃ s0 s1 st, slabStep b.mins.x b.maxs.x ray.o.x ray.d.x (0, big) = some s0 ∧
+        slabStep b.mins.y b.maxs.y ray.o.y ray.d.y s0 = some s1 ∧ slabStep b.mins.z b.maxs.z ray.o.z ray.d.z s1 = some st ∧
+        SlabInv big (fun s => AabbMem b (rayPt sq ray s)) (fun s => OnFace b (rayPt sq ray s)) st) ∨
+    ((slabStep b.mins.x b.maxs.x ray.o.x ray.d.x (0, big) = none ∨
+      (∃ s0, slabStep b.mins.x b.maxs.x ray.o.x ray.d.x (0, big) = some s0 ∧
+        (slabStep b.mins.y b.maxs.y ray.o.y ray.d.y s0 = none ∨
+         ∃ s1, slabStep b.mins.y b.maxs.y ray.o.y ray.d.y s0 = some s1 ∧ slabStep b.mins.z b.maxs.z ray.o.z ray.d.z s1 = none))) ∧
+      ∀ s, 0 ≤ s → s ≤ big → ¬ AabbMem b (rayPt sq ray s)) := by
+  obtain ⟨vx, vy, vz⟩ := hv
+  let face := fun s => OnFace b (rayPt sq ray s)
+  have i0 : SlabInv big (fun _ => True) face ((0 : K), big) :=
+    ⟨fun s a b => ⟨fun _ => ⟨a, b⟩, fun _ => trivial⟩, le_refl _, hbig, le_refl _, Or.inl rfl, Or.inl rfl⟩
+  have fx : ∀ s, (ray.o.x + ray.d.x * s = b.mins.x ∨ ray.o.x + ray.d.x * s = b.maxs.x) → face s := fun s h => Or.inl h
+  have fy : ∀ s, (ray.o.y + ray.d.y * s = b.mins.y ∨ ray.o.y + ray.d.y * s = b.maxs.y) → face s := fun s h => Or.inr (Or.inl h)
+  have fz : ∀ s, (ray.o.z + ray.d.z * s = b.mins.z ∨ ray.o.z + ray.d.z * s = b.maxs.z) → face s := fun s h => Or.inr (Or.inr h)
+  cases h0 : @slabStep K (fieldNum K sq) b.mins.x b.maxs.x ray.o.x ray.d.x (0, big) with
+  | none =>
+    refine Or.inr ⟨Or.inl rfl, fun s a c hm => ?_⟩
+    exact slabStep_none sq big _ _ _ _ vx _ face _ i0 h0 s a c ⟨trivial, ((aabbMem_rayPt sq b ray s).1 hm).1⟩
+  | some s0 =>
+    have i1 := slabStep_some sq big _ _ _ _ vx _ face _ s0 fx i0 h0
+    cases h1 : @slabStep K (fieldNum K sq) b.mins.y b.maxs.y ray.o.y ray.d.y s0 with
+    | none =>
+      refine Or.inr ⟨Or.inr ⟨s0, rfl, Or.inl h1⟩, fun s a c hm => ?_⟩
+      have hm' := (aabbMem_rayPt sq b ray s).1 hm
+      exact slabStep_none sq big _ _ _ _ vy _ face _ i1 h1 s a c ⟨⟨trivial, hm'.1⟩, hm'.2.1⟩
+    | some s1 =>
+      have i2 := slabStep_some sq big _ _ _ _ vy _ face _ s1 fy i1 h1
+      cases h2 : @slabStep K (fieldNum K sq) b.mins.z b.maxs.z ray.o.z ray.d.z s1 with
+      | none =>
+        refine Or.inr ⟨Or.inr ⟨s0, rfl, Or.inr ⟨s1, h1, h2⟩⟩, fun s a c hm => ?_⟩
+        have hm' := (aabbMem_rayPt sq b ray s).1 hm
+        exact slabStep_none sq big _ _ _ _ vz _ face _ i2 h2 s a c ⟨⟨⟨trivial, hm'.1⟩, hm'.2.1⟩, hm'.2.2⟩
+      | some st =>
+        have i3 := slabStep_some sq big _ _ _ _ vz _ face _ st fz i2 h2
+        refine Or.inl ⟨s0, s1, st, rfl, h1, h2, i3.congr fun s => ?_⟩
+        rw [aabbMem_rayPt]; tauto
+
+
+/-- `Aabb::cast_local_ray` (corrected) in terms of the final loop state -/
+theorem aabb_cast_cases (big : K) (b : Aabb K) (ray : Ray3 K) (max : K) (solid : Bool) (hv : AabbValid b) (hbig : 0 ≤ big) :
+    letI := fieldNum K sq
+    (∃ st : K × K, SlabInv big (fun s => AabbMem b (rayPt sq ray s)) (fun s => OnFace b (rayPt sq ray s)) st ∧
+      b.castLocalRay big ray max solid =
+        (if (if st.1 = 0 ∧ solid = false then st.2 else st.1) ≤ max then some (if st.1 = 0 ∧ solid = false then st.2 else st.1) else none)) ∨
+    (b.castLocalRay big ray max solid = none ∧ ∀ s, 0 ≤ s → s ≤ big → ¬ AabbMem b (rayPt sq ray s)) := by
+  rcases aabb_fold sq big b ray hv hbig with ⟨s0, s1, st, h0, h1, h2, inv⟩ | ⟨hnone, hno⟩
+  · refine Or.inl ⟨st, inv, ?_⟩
+    simp only [Aabb.castLocalRay, h0, h1, h2]
+    have e : (@neq K (fieldNum K sq) st.1 0 && !solid) = true ↔ (st.1 = 0 ∧ solid = false) := by
+      rw [Bool.and_eq_true, neq_zero_iff]; simp
+    by_cases hc : st.1 = 0 ∧ solid = false
+    · rw [if_pos (e.2 hc), if_pos hc]
+    · rw [if_neg (fun h => hc (e.1 h)), if_neg hc]
+  · refine Or.inr ⟨?_, hno⟩
+    simp only [Aabb.castLocalRay]
+    rcases hnone with h | ⟨s0, h0, h | ⟨s1, h1, h2⟩⟩
+    · rw [h]
+    · rw [h0]; simp only [h]
+    · rw [h0]; simp only [h1, h2]
+
+
 end C04
